@@ -122,6 +122,10 @@ NEWFUNC_CASES = [
     [("newf1", "calls-new"), ("newf2", "single")],
     [("newf1", "branching"), ("newf2", "branching")],
     [("newf2", "single"), ("newf1", "calls-new")],
+    # "ext:<name>": the module has an external (proxy-backed) symbol of that name; the same context deletes it and inserts
+    # a function of that name in its place
+    [("ext:newf1", "single")],
+    [("ext:newf1", "calls-existing"), ("newf2", "single")],
 ]
 
 
@@ -153,7 +157,12 @@ def check_newfunc(spec, funcs, mods):
                     tag += 1
                 toks.append(t)
             bodies[name] = toks
-            syms[name] = ctx.register_insert_function(name, Lg.make_patch(isa_, toks))
+            if name.startswith("ext:"):
+                from gtirb_test_helpers import add_proxy_block, add_symbol
+
+                old = add_symbol(m, name[4:], add_proxy_block(m))
+                ctx.delete_symbol(old)
+            syms[name] = ctx.register_insert_function(name[4:] if name.startswith("ext:") else name, Lg.make_patch(isa_, toks))
         Lg.register(w, ctx, mods)
         ctx.apply()
     except Exception as e:
